@@ -231,6 +231,7 @@ func judgeC17(hi *Hist) []*Violation {
 		}
 		// the handover frame: successor created before the predecessor's last frame was drawn
 		if lastPred >= 0 && lastPred < len(frames)-1 && bf.AddRet < cycleFirstEvent(hi, frames, lastPred) {
+			note("c17_handover_checked")
 			if first != lastPred+1 {
 				add("handover-late", "bar %d (queued after bar %d) first appears in frame %d but its predecessor's last frame is %d", bf.Idx, pred.Idx, first, lastPred)
 				continue
